@@ -20,6 +20,7 @@ int main(void) {
   ZV("jbinn_MAX_BIN_KEY_LEN", MAX_BIN_KEY_LEN);
   ZV("jbinn_JBL_MAX_NESTING_LEVEL", JBL_MAX_NESTING_LEVEL);
   ZV("jbinn_sizeof_int", sizeof(int));
+  ZV("jbinn_sizeof_ptr", sizeof(char*));   // jbl_ptr_cmp compares the allocation sizes of two parsed pointers first
   ZV("jbinn_UINT8_MAX", UINT8_MAX); ZV("jbinn_UINT16_MAX", UINT16_MAX); ZV("jbinn_UINT32_MAX", UINT32_MAX);
   ZV("jbinn_INT8_MIN", INT8_MIN); ZV("jbinn_INT16_MIN", INT16_MIN); ZV("jbinn_INT32_MIN", INT32_MIN);
   // behaviour of binn_set_string + AddValue on a string with an embedded zero byte: length written for "a\0b"
